@@ -56,26 +56,35 @@ def r1_launch_gating(chk: Check):
                 chk.require(f.key in table[t], chk.fkey(f, f"calls {t}"), f"`{f.qual}` calls {t}(): only {sorted(table[t])} may (the gating checks live there)", chk.loc(f.module, c))
     for k, v in found.items():
         chk.min_instances(v, 1, f"call sites of {k}")
-    # in aio_start: aio_run after the dependency-lock loop has completed, inside the job lock
+    # in aio_start: aio_run after the dependency-lock phase has completed, inside the job lock
+    from ..sched import lock_phase
+
     st = tree.func("scheduler.base", "Scheduler.aio_start")
     gs_ = CFG(st.node)
     runs = gs_.call_nodes(lambda c: tail(c) == "aio_run")
-    loops = [n for n in gs_.live if n.kind == "for" and src(n.ast.iter) == "job.dependencies"]
-    chk.min_instances(len(loops), 1, "dependency lock loop in aio_start")
+    done, sites, helper, loops = lock_phase(tree, gs_, st)
+    if not done:
+        raise Undecided("aio_start: the phase that locks every dependency was not found (neither an inline loop nor a helper of Scheduler)")
     for n, c in runs:
-        done = [b for b in gs_.live if b.kind == "branch" and b.extra["test"] in loops and b.extra["polarity"] == "done"]
         chk.require(any(gs_.dominates(b, n) for b in done), chk.fkey(st, "run after all dependency locks"),
-                    "aio_run is not dominated by the completion of the loop that locks every dependency", chk.loc(st.module, c))
+                    "aio_run is not dominated by the completion of the phase that locks every dependency", chk.loc(st.module, c))
         inside = any(isinstance(a, ast.AsyncWith) and any("lock(job.lockpath)" in src(i.context_expr) for i in a.items) for a in _anc(c))
         chk.require(inside, chk.fkey(st, "run inside job lock"), "aio_run is not inside `async with <connector>.lock(job.lockpath)`", chk.loc(st.module, c))
-    # each lock in the loop: dependency.lock().acquire(); LockError -> return without aio_run
+    # a failed dependency lock aborts the start: the LockError handler returns (inline), or the helper's result is tested before the run
     for lp in loops:
-        acq = [x for x in body_walk(lp.ast) if isinstance(x, ast.Call) and src(x).endswith(".lock().acquire()")]
-        chk.require(len(acq) >= 1, chk.fkey(st, "locks each dependency"), "the dependency loop does not acquire dependency.lock()", chk.loc(st.module, lp.ast))
         for h in [x for x in body_walk(lp.ast) if isinstance(x, ast.ExceptHandler)]:
             if h.type is not None and "LockError" in src(h.type):
                 rets = [x for x in h.body if isinstance(x, ast.Return)]
                 chk.require(bool(rets), chk.fkey(st, "LockError aborts"), "a failed dependency lock must abort the start (return)", chk.loc(st.module, h))
+    if helper is not None:
+        hs = [h for h in ast.walk(helper.node) if isinstance(h, ast.ExceptHandler) and h.type is not None and "LockError" in src(h.type)]
+        ok = bool(hs) and all(any(isinstance(x, (ast.Return, ast.Raise)) for x in h.body) for h in hs)
+        chk.require(ok, chk.fkey(helper, "LockError aborts"), "a failed dependency lock must abort the locking helper", chk.loc(helper.module, helper.node))
+        for n, c in runs:
+            gsn = [(src(t.ast), pol) for t, pol in gs_.guards(n) if t.kind == "test"]
+            rdx = ReachingDefs(gs_)
+            tested = any(helper.node.name in rdx.canon(t.ast, t) for t, pol in gs_.guards(n) if t.kind == "test")
+            chk.require(tested, chk.fkey(st, "helper result tested before run"), f"the result of {helper.qual} is not tested before the job is started ({gsn})", chk.loc(st.module, c))
 
 
 def _anc(node):
